@@ -396,16 +396,26 @@ def bp2(img, threshold):
                 if ts is None:
                     continue
                 off = Rat({})
+                opaque_extent = False
                 for c, mth in ts:
                     t = Rat({mth: c})
-                    if not t.depends_on(Sym("ref")) and not t.depends_on(Sym("im")):
+                    # an extent of the frame (shape(...) of an expression in im) is a number, not image data
+                    t_data = t.subst(lambda a: Rat.sym("__extent__", ("int", "size")) if isinstance(a, Fn) and a.name in ("shape", "len")
+                                     else None)
+                    if not t_data.depends_on(Sym("ref")) and not t_data.depends_on(Sym("im")):
                         off = off + t
+                        if t_data.depends_on(Sym("__extent__")):
+                            opaque_extent = True
                 n = Rat.sym("shape(im)[%d]" % axis, ("int", "size"))
                 # zero lag of the fftshift-ed padded correlation is at (n p) // 2; referring it to the centre n // 2 of the
                 # unpadded frame for every padding means removing the difference (n / 2 (p - 1) only when n p and n are even)
                 pad_ = Rat.sym("padding")
                 want_off = -(Rat.atom(Fn("floordiv", (n * pad_, Rat.const(2)))) - Rat.atom(Fn("floordiv", (n, Rat.const(2)))))
                 n_ok += 1
+                if opaque_extent and not same_value(off, want_off):
+                    rep.unknown("H5.padding-offset", "%s[store %d]: %s offset" % (f.fq, (n_ok + 1) // 2, label),
+                                "the offset %s is written with an extent the analysis cannot name (a slice of the shape)" % nf(off), f.where())
+                    continue
                 rep.check(same_value(off, want_off), "H5.padding-offset", "%s[store %d]: %s offset == (n*padding)//2 - n//2 on axis %d"
                           % (f.fq, (n_ok + 1) // 2, label, axis),
                           "offset removed from the %s centroid is %s, expected %s" % (label, nf(off), nf(want_off)), f.where())
